@@ -350,7 +350,18 @@ func c15EndToEnd(rc *runCtx, nseq int, files *c15Files, hist map[string]int, not
 			if err != nil {
 				return err
 			}
-			cerr := node.CreateCollection(models.Collection{UserId: user, Id: id, Replicas: 1, Timestamp: 1, CreatedAt: 1, UserPlan: plan, IndexSchema: models.IndexSchema{}})
+			// the plan travels with every request: one time in three it is a different one (a downgrade below the
+			// number of collections the user already has, zero, one more)
+			mc := maxCols
+			if r.IntN(3) == 0 {
+				mc = []int{0, 1, int(before) - 1, int(before), int(before) + 1, int(before) - 2}[r.IntN(6)]
+				if mc < 0 {
+					mc = 0
+				}
+			}
+			reqPlan := plan
+			reqPlan.MaxCollections = mc
+			cerr := node.CreateCollection(models.Collection{UserId: user, Id: id, Replicas: 1, Timestamp: 1, CreatedAt: 1, UserPlan: reqPlan, IndexSchema: models.IndexSchema{}})
 			refQ, refE := errors.Is(cerr, cluster.ErrQuotaReached), errors.Is(cerr, cluster.ErrExists)
 			if cerr != nil && !refQ && !refE {
 				return fmt.Errorf("CreateCollection: %w", cerr)
@@ -359,9 +370,9 @@ func c15EndToEnd(rc *runCtx, nseq int, files *c15Files, hist map[string]int, not
 			if err != nil {
 				return err
 			}
-			term := fmt.Sprintf("CCreate %s %s %s %s %s %s", cZ(before), cZ(int64(maxCols)), cBool(existing[id]), cBool(refQ), cBool(refE), cZ(after))
+			term := fmt.Sprintf("CCreate %s %s %s %s %s %s", cZ(before), cZ(int64(mc)), cBool(existing[id]), cBool(refQ), cBool(refE), cZ(after))
 			files.add(term)
-			note(fmt.Sprintf("create|%d|%d|%v", before, maxCols, existing[id]))
+			note(fmt.Sprintf("create|%d|%d|%v", before, mc, existing[id]))
 			switch {
 			case refE:
 				hist["create refused: exists"]++
